@@ -44,6 +44,7 @@ THE SOFTWARE.
 #include <amgcl/value_type/interface.hpp>
 #include <amgcl/relaxation/runtime.hpp>
 #include <amgcl/mpi/relaxation/spai0.hpp>
+#include <amgcl/mpi/relaxation/gauss_seidel.hpp>
 #include <amgcl/mpi/util.hpp>
 #include <amgcl/mpi/distributed_matrix.hpp>
 
@@ -92,7 +93,7 @@ struct wrapper {
             AMGCL_RELAX_LOCAL_LOCAL(ilup);
             AMGCL_RELAX_LOCAL_LOCAL(ilut);
             AMGCL_RELAX_LOCAL_LOCAL(spai1);
-            AMGCL_RELAX_LOCAL_LOCAL(gauss_seidel);
+            AMGCL_RELAX_DISTR(gauss_seidel);
 
 #undef AMGCL_RELAX_LOCAL_LOCAL
 #undef AMGCL_RELAX_LOCAL_DISTR
@@ -123,7 +124,7 @@ struct wrapper {
             AMGCL_RELAX_LOCAL(ilut);
             AMGCL_RELAX_LOCAL(spai1);
             AMGCL_RELAX_LOCAL(chebyshev);
-            AMGCL_RELAX_LOCAL(gauss_seidel);
+            AMGCL_RELAX_DISTR(gauss_seidel);
 
 #undef AMGCL_RELAX_LOCAL
 #undef AMGCL_RELAX_DISTR
@@ -160,7 +161,7 @@ struct wrapper {
             AMGCL_RELAX_LOCAL_DISTR(ilut);
             AMGCL_RELAX_LOCAL_DISTR(spai1);
             AMGCL_RELAX_LOCAL_DISTR(chebyshev);
-            AMGCL_RELAX_LOCAL_LOCAL(gauss_seidel);
+            AMGCL_RELAX_DISTR(gauss_seidel);
 
 #undef AMGCL_RELAX_LOCAL_LOCAL
 #undef AMGCL_RELAX_LOCAL_DISTR
@@ -198,7 +199,7 @@ struct wrapper {
             AMGCL_RELAX_LOCAL_DISTR(ilut);
             AMGCL_RELAX_LOCAL_DISTR(spai1);
             AMGCL_RELAX_LOCAL_DISTR(chebyshev);
-            AMGCL_RELAX_LOCAL_LOCAL(gauss_seidel);
+            AMGCL_RELAX_DISTR(gauss_seidel);
 
 #undef AMGCL_RELAX_LOCAL_LOCAL
 #undef AMGCL_RELAX_LOCAL_DISTR
@@ -230,7 +231,7 @@ struct wrapper {
 
             AMGCL_RELAX_DISTR(spai0);
             AMGCL_RELAX_LOCAL_DISTR(damped_jacobi);
-            AMGCL_RELAX_LOCAL_LOCAL(gauss_seidel);
+            AMGCL_RELAX_DISTR(gauss_seidel);
             AMGCL_RELAX_LOCAL_DISTR(ilu0);
             AMGCL_RELAX_LOCAL_DISTR(iluk);
             AMGCL_RELAX_LOCAL_DISTR(ilup);
